@@ -40,6 +40,11 @@ CONSTANTS
 (*   ids   element ids by payload position                                 *)
 (*   vals  numeric value by payload position (NA = none)                   *)
 (*   date  TRUE for a categorical-date dimension                           *)
+(*   der   per payload position: [is, of, at, ref] -- is = TRUE for a      *)
+(*         DERIVED item of an MR dimension (an "any of these selected"     *)
+(*         item the server computes from the base items `of` and delivers  *)
+(*         in the payload), anchored `at` top / bottom / before / after    *)
+(*         the item at position `ref`                                      *)
 (***************************************************************************)
 
 NA == -99            \* "no value" for numeric answers and numeric values
@@ -77,11 +82,18 @@ ValidSeq(d) == SelectSeq([i \in 1..Dims[d].n |-> i], LAMBDA i : i \notin Dims[d]
 (***************************************************************************)
 SeqsOf(n, S) == [1..n -> S]
 
+\* the answer a derived "any selected" item has, given the answers to its base items
+DerivedAnswer(a, of) ==
+  IF \E j \in of : a[j] = SEL THEN SEL
+  ELSE IF \A j \in of : a[j] = MIS THEN MIS ELSE OTH
+
 Answers(v) ==
   IF v = "y" THEN {<<x>> : x \in YVals \cup {NA}}
   ELSE LET d == DimOfVar(v) IN
     CASE Kind(d) = "cat"    -> {<<c>> : c \in 1..Dims[d].n}
-      [] Kind(d) = "mr"     -> SeqsOf(Dims[d].n, {SEL, OTH, MIS})
+      [] Kind(d) = "mr"     -> {a \in SeqsOf(Dims[d].n, {SEL, OTH, MIS}) :
+                                   \A i \in 1..Dims[d].n :
+                                     Dims[d].der[i].is => a[i] = DerivedAnswer(a, Dims[d].der[i].of)}
       [] Kind(d) = "numarr" -> SeqsOf(Dims[d].n, YVals \cup {NA})
       [] OTHER              -> SeqsOf(Dims[ItemsDim(v)].n, 1..Dims[CatsDim(v)].n)
 
